@@ -29,7 +29,10 @@ LOOPS_JUDGE = {
                            f"all(not ({IN('_seq[j]', 'hash_formats_to_generate')}) or {IN('_seq[j]', 'cf')} for j in range(_i))",
                            "not existing_hashes_verified or all(cs[j] for j in range(len(cs)))",
                            "existing_hashes_verified or any(not cs[j] for j in range(len(cs)))",
-                           f"all(digest_ok(hash_result_lookup[k][0], k, {BYTES}) for k in hash_result_lookup.keys())",
+                           # the result dict, stated over the formats to generate (select / store reasoning instead of the key sequence):
+                           # its keys are formats to generate, and for each of those that is a key the stored digest is the right one
+                           f"all({IN('k', 'hash_formats_to_generate')} for k in hash_result_lookup.keys())",
+                           f"all(hash_formats_to_generate[j] not in hash_result_lookup or digest_ok(hash_result_lookup[hash_formats_to_generate[j]][0], hash_formats_to_generate[j], {BYTES}) for j in range(len(hash_formats_to_generate)))",
                            f"all(not ({IN('_seq[j]', 'hash_formats')} and {IN('_seq[j]', 'hash_formats_to_generate')}) or _seq[j] in hash_result_lookup for j in range(_i))",
                            "_seq == existing_hash_formats", "nb == len(cf)"],
                 lemmas=["L_member(_seq, _seq[_i])", "L_member(hash_formats_to_generate, _seq[_i])", "L_member(hash_formats, _seq[_i])",
@@ -41,7 +44,10 @@ LOOPS_JUDGE = {
                            f"all({IN('cf[j]', 'existing_hash_formats')} for j in range(nb))",
                            f"all(not ({IN('cf[j]', 'existing_hash_formats')}) for j in range(nb, len(cf)))",
                            "len(cf) == nb or all(cs[j] for j in range(nb))",
-                           f"all(digest_ok(hash_result_lookup[k][0], k, {BYTES}) for k in hash_result_lookup.keys())",
+                           # the result dict, stated over the formats to generate (select / store reasoning instead of the key sequence):
+                           # its keys are formats to generate, and for each of those that is a key the stored digest is the right one
+                           f"all({IN('k', 'hash_formats_to_generate')} for k in hash_result_lookup.keys())",
+                           f"all(hash_formats_to_generate[j] not in hash_result_lookup or digest_ok(hash_result_lookup[hash_formats_to_generate[j]][0], hash_formats_to_generate[j], {BYTES}) for j in range(len(hash_formats_to_generate)))",
                            "_seq == hash_formats_to_generate",
                            # judgements of recorded formats all succeeded if the flag still says so; a cleared flag means one was made
                            f"not existing_hashes_verified or all(not ({IN('cf[j]', 'existing_hash_formats')}) or cs[j] for j in range(len(cf)))",
@@ -93,8 +99,6 @@ contract(
     "ascmhl.commands.seal_file_path",
     region="plan",
     slices=4,
-    bounded="71 or 72 of 72 obligations discharge from run to run (one preservation obligation about membership after an append sits "
-    "at the solvers' time limit); kept as monitored contract, not counted as proved",
     params=PARAMS,
     stop_at="current_hash_lookup = multiple_format_hash_file(",
     locals={"hash_formats_to_generate": "list[str]", "existing_hash_formats": "list[str]"},
@@ -122,11 +126,11 @@ contract(
     "ascmhl.commands.seal_file_path",
     region="judge",
     slices=16,
-    bounded="286-290 of 293 obligations discharge from run to run: all eight postconditions and most invariant obligations, but 3-7 "
-    "preservation obligations of the two judging loops (membership after appends to the ghost call log / the result dict) sit at the "
-    "solvers' time limit. A z3 mode that did discharge them (assert_and_track / unsat cores) was found UNSOUND on sequence formulas by a "
-    "deliberately broken body and was removed (DESIGN.md section D). The ordering of judgements is checked by the C04 small-world driver "
-    "on all format-subset sequences instead",
+    bounded="307 or 308 of 308 obligations discharge from run to run (all eight postconditions and all invariant obligations in most runs; "
+    "one preservation obligation of the second judging loop sits at the solvers' time limit, and the region needs 2-4 minutes), so it is "
+    "kept as a monitored contract and not counted as proved. A z3 mode that discharged everything at once (assert_and_track / unsat cores) "
+    "was found UNSOUND on sequence formulas by a deliberately broken body and was removed (DESIGN.md section D). The ordering of judgements "
+    "is checked by the C04 small-world driver on all format-subset sequences",
     params=PARAMS,
     start_at="current_hash_lookup = multiple_format_hash_file(",
     returns="dict[str,tuple[str,bool]]",
@@ -148,6 +152,7 @@ contract(
             "all(L_member(hash_formats, hash_formats[j]) for j in range(len(hash_formats)))",
             f"all(L_digest_ok(current_hash_lookup[k], k, {BYTES}) for k in current_hash_lookup.keys())",
             f"all(L_digest_ok(hash_result_lookup[k][0], k, {BYTES}) for k in hash_result_lookup.keys())",
+            f"all(L_member({GL}, k) for k in hash_result_lookup.keys())",
             f"all(L_member({GL}, cf[i]) for i in range(len(cf)))",
             "all(L_member(current_hash_lookup.keys(), cf[i]) for i in range(len(cf)))",
         ],
